@@ -86,6 +86,9 @@ class Runner:
         self.mark = 0
         self.crash_exc = "logged"
         self.nchunks = {"c": {}, "s": {}}
+        self.h1buf: dict[int, bytearray] = {}
+        self.h1seen: set[int] = set()
+        self.h1answered: set[int] = set()
         if sc.get("swin"):
             sc["late"] = False  # a small server window must be announced before any body byte goes out
         self.own: set[int] = set()  # client streams answered by a proxy-made (non-200) response
@@ -158,6 +161,8 @@ class Runner:
                     if (h.name == "requestheaders" and streamed_now) or (h.name == "request" and not streamed_now):
                         d.log.append({"t": "release", "s": i})
                 self._guard(d.complete, h)
+            elif opens and self.sc.get("h1up"):
+                break  # connection attempts complete when the scenario says so (open_op)
             elif opens:
                 o = opens[0]
                 o.connection.alpn = b"h2"
@@ -278,7 +283,11 @@ class Runner:
                 if e.get("proj"):
                     self.trace.append(e["proj"])
             elif t == "close":
+                if e["c"] != "client" and self.sc.get("h1up"):
+                    continue  # an HTTP/1 upstream connection serves one HTTP/2 stream and is closed after it
                 self.trace.append({"k": "p_close", "side": "c" if e["c"] == "client" else "s"})
+            elif t == "send" and e["c"] != "client" and self.sc.get("h1up"):
+                self._h1_server_bytes(e["c"], e["data"])
             elif t == "send":
                 side = "c" if e["c"] == "client" else "s"
                 peer = self.cp if side == "c" else self.sp
@@ -362,7 +371,7 @@ class Runner:
 
             self.cp.update_settings({h2.settings.SettingCodes.INITIAL_WINDOW_SIZE: int(self.sc["cwin"])})
         self._guard(self.d.start)
-        self.trace.append({"k": "cfg", "fc": bool(self.sc.get("cwin") or self.sc.get("swin"))})
+        self.trace.append({"k": "cfg", "fc": bool(self.sc.get("cwin") or self.sc.get("swin")), "sep": bool(self.sc.get("h1up"))})
         self._feed("c", [([], self.cp.data_to_send())])
         self._settle()
 
@@ -493,8 +502,72 @@ class Runner:
         self._settle()
         return True
 
+    # --- HTTP/1-only upstream: every HTTP/2 stream gets a server connection of its own ----------------
+    def _h1_server_bytes(self, name: str, data: bytes):
+        from vf import hpeers
+
+        j = int(name[len("server"):])
+        buf = self.h1buf.setdefault(j, bytearray())
+        buf.extend(data)
+        if j in self.h1seen:
+            return
+        msgs, _rest = hpeers.h1_parse(bytes(buf), request=True, eof=False)
+        if msgs and msgs[0].complete:
+            m = msgs[0]
+            self.h1seen.add(j)
+            self.trace.append({"k": "s_req", "t": j, "ms": _markers([(b":path", m.start[1])] + m.fields)})
+            if m.body:
+                self.trace.append({"k": "s_data", "t": j, "d": _ids(m.body)})
+            self.trace.append({"k": "s_end", "t": j})
+
+    def open_op(self, k: int) -> bool:
+        """The k-th outstanding connection attempt succeeds; the server speaks HTTP/1 only."""
+        opens = self.d.opens_pending()
+        if k >= len(opens):
+            return False
+        o = opens[k]
+        o.connection.alpn = b"http/1.1"
+        self.d.log.append({"t": "stim", "recs": [{"k": "in", "side": "s"}]})
+        self._guard(self.d.complete, o)
+        self._settle()
+        return True
+
+    def h1_resp_op(self, j: int, nchunks: int, split: bool) -> bool:
+        from mitmproxy.connection import ConnectionState
+
+        try:
+            conn = self.d.conn(f"server{j}")
+        except KeyError:
+            return False
+        if j not in self.h1seen or j in self.h1answered or not (conn.state & ConnectionState.CAN_READ):
+            return False
+        self.h1answered.add(j)
+        body = bytes(resp_chunk_id(j, k) for k in range(nchunks))
+        head = b"HTTP/1.1 200 OK\r\nx-tid: %d\r\nx-only-%d: 1\r\ncontent-length: %d\r\n\r\n" % (j, j, len(body))
+        recs = [{"k": "in", "side": "s"}, {"k": "r_hdr", "t": j}]
+        if split and body:
+            self.d.log.append({"t": "stim", "recs": recs})
+            self._guard(self.d.data, conn, head)
+            self._settle()
+            recs = [{"k": "in", "side": "s"}]
+            head = b""
+        if body:
+            recs.append({"k": "r_data", "t": j, "d": _ids(body)})
+        recs.append({"k": "r_end", "t": j})
+        self.d.log.append({"t": "stim", "recs": recs})
+        self._guard(self.d.data, conn, head + body)
+        self._settle()
+        return True
+
     def finish(self):
         """Flush what was withheld, open every flow-control window, and close the trace."""
+        if self.sc.get("h1up"):
+            for _ in range(40):  # every connection attempt still outstanding succeeds, every request is answered
+                if self.dead or self.d.crashed or not self.open_op(0):
+                    break
+            for j in sorted(self.h1seen - self.h1answered):
+                if not (self.dead or self.d.crashed):
+                    self.h1_resp_op(j, 1, False)
         if not self.dead and not self.d.crashed:
             self._flush("c")
             self._flush("s")
@@ -536,9 +609,13 @@ class Runner:
                 ok = self.settings_op(int(op[1]), bool(op[2]) if len(op) > 2 else False)
             elif kind == "sclose":
                 ok = self.sclose_op()
+            elif kind == "open":
+                ok = self.open_op(int(op[1]))
+            elif kind == "h1resp":
+                ok = self.h1_resp_op(int(op[1]), int(op[2]), bool(op[3]))
             else:
                 ok = False
-            if not ok:
+            if not ok and not self.sc.get("total"):
                 break  # not enabled on the real objects: judge what was observed so far
         return self.finish()
 
@@ -736,7 +813,7 @@ class Check(core.PropertyCheck):
                           "client_reset_while_queued", "client_reset_while_upstream", "reset_upstream", "server_reset",
                           "reset_downstream", "proxy_error_response", "request_trailers", "response_trailers",
                           "flow_request", "flow_request_streamed", "flow_response", "flow_response_streamed",
-                          "flow_control", "in_flight_close", "server_closed_with_queue")
+                          "flow_control", "in_flight_close", "server_closed_with_queue", "h1_upstream")
     REQUIRED_ACTIONS = ("CHdr", "CBody", "CRst", "SResp", "Settings", "Finish")
     ASSUMPTIONS = (
         "the two hyper-h2 peers owned by the harness decode what the proxy sends; HPACK / frame parsing is theirs",
@@ -815,6 +892,24 @@ class Check(core.PropertyCheck):
                                  "ps": {str(i): rng.random() < 0.4 for i in range(1, 13)},
                                  "cwin": rng.choice([1, 2, 3, 5]) if fc else 0,
                                  "swin": rng.choice([1, 2, 3, 5]) if fc and rng.random() < 0.7 else 0}, source="random")
+        # HTTP/2 client, HTTP/1-only upstream ("tricky multiplexing edge case" of HttpLayer.register_connection): several
+        # streams to one origin overlap the first connection attempt, every one must get a connection and an answer of
+        # its own.  Not in the model (it has one upstream HTTP/2 connection): scripted + seeded orders.
+        for k in range(40 if ctx.quick else 600):
+            n = 2 + k % 4
+            per = [[["c", i, "hdr_end"]] if rng.random() < 0.6 else [["c", i, "hdr"], ["c", i, "end"]] for i in range(1, n + 1)]
+            late_one = per.pop() if k % 3 == 1 else []  # one request arrives only after the first connection is up
+            ops = []
+            while any(per):  # interleave the streams' frames (streams are opened in id order)
+                cand = [q for idx, q in enumerate(per) if q and (q[0][2] == "end" or all(not r or r[0][2] == "end" for r in per[:idx]))]
+                ops.append(rng.choice(cand).pop(0))
+            ops.append(["open", 0])
+            ops += late_one
+            for j in range(1, n + 1):
+                ops.append(["open", 0] if rng.random() < 0.7 else ["open", rng.randrange(2)])
+                ops.append(["h1resp", rng.randint(1, j), rng.randint(0, 2), rng.random() < 0.5])
+            yield core.Scenario({"h1up": True, "total": True, "limit0": 0, "late": False, "unit": 1, "cut": rng.randrange(1 << 30),
+                                 "rs": {}, "ps": {str(i): rng.random() < 0.4 for i in range(1, n + 1)}, "ops": ops}, source="suite")
         # the server connection is lost while streams are open on it / waiting for it
         yield core.Scenario({"limit0": 1, "late": False, "unit": 1, "cut": 1, "rs": {}, "ps": {},
                              "ops": [["c", 1, "hdr_end"], ["c", 2, "hdr_end"], ["c", 3, "hdr_end"], ["sclose"]]}, source="suite")
